@@ -139,6 +139,7 @@ type c18Scenario struct {
 	Fmt       int  // index into the syntax's format list
 	SPP       int  // 0 means 1
 	W, H      int  // 0 means 3x2
+	Seed      string // non-empty: decode this valid E3 seed stream twice through the codec, alone, with state digests (see c18SeedRun)
 	FreshRef  bool // compare each solo result with the result of the same single call made in a process of its own
 	RefThread int  // worker use: compute only this thread's solo result (see c18RefWorker)
 	Hetero    int  // h > 0: thread k uses format (Fmt+k*h) mod #formats and SPP alternating 1/3, so that calls of different shapes meet
@@ -301,9 +302,58 @@ type c18Out struct {
 	Outcomes  int       `json:"outcomes"`
 }
 
+// c18SeedRun decodes a valid stream produced elsewhere (reference encoders, streams with preset parameters, spliced
+// optional segments, ROI/MCT/tiles/layers, third-party fixtures) through the codec, twice, alone: whatever the codec
+// makes of it, no package-level variable and nothing on the codec instance may be different afterwards, and the second
+// call must return what the first returned.
+func c18SeedRun(a c18Scenario, o *c18Out) *eng.Fail {
+	ts := allTS()[a.TS]
+	cd, ok := gcodec.GetGlobalRegistry().GetCodec(ts.TS)
+	if !ok {
+		return eng.Failf("codec-not-registered:"+ts.Name, "")
+	}
+	var data []byte
+	for _, sd := range allSeeds() {
+		if sd.Name == a.Seed {
+			data = sd.Data
+		}
+	}
+	if data == nil {
+		o.Declined = true
+		return nil
+	}
+	g0 := GlobalsDigest()
+	c0 := deepKey(reflect.ValueOf(cd))
+	fi := frameInfo(4, 3, ts.Formats[0][0], ts.Formats[0][1], 1, false)
+	var res [2]c18Result
+	for r := 0; r < 2; r++ {
+		src := &schedPD{info: fi, frames: [][]byte{append([]byte(nil), data...)}}
+		dst := &schedPD{info: fi}
+		err := cd.Decode(src, dst, nil)
+		res[r] = c18Result{out: dst.added}
+		if err != nil {
+			res[r].err = stripDigits(err.Error())
+		}
+	}
+	if d := diffDigests(g0, GlobalsDigest()); len(d) > 0 {
+		return eng.Failf(ts.Name+"|package-state-written", "package-level variables changed by decoding the valid stream %s: %v", a.Seed, d)
+	}
+	if c1 := deepKey(reflect.ValueOf(cd)); c1 != c0 {
+		return eng.Failf(ts.Name+"|codec-state-written", "codec instance changed by decoding %s", a.Seed)
+	}
+	if !res[0].equal(res[1]) {
+		return eng.Failf(ts.Name+"|result-differs-on-repetition", "decoding %s twice gave different results: %s / %s", a.Seed, res[0].digest(), res[1].digest())
+	}
+	o.Execs, o.Outcomes = 1, 1
+	return nil
+}
+
 func c18Run(a c18Scenario, o *c18Out) *eng.Fail {
 	if o == nil {
 		o = &c18Out{}
+	}
+	if a.Seed != "" {
+		return c18SeedRun(a, o)
 	}
 	ts := allTS()[a.TS]
 	cd, ok := gcodec.GetGlobalRegistry().GetCodec(ts.TS)
@@ -566,7 +616,7 @@ func c18(c *eng.Ctx) {
 	for ti, ts := range allTS() {
 		for fi := range ts.Formats {
 			for _, spp := range []int{1, 3} {
-				for _, wh := range [][2]int{{3, 2}, {9, 10}, {17, 9}} {
+				for _, wh := range [][2]int{{3, 2}, {9, 10}, {17, 9}, {1, 7}, {1, 1}} {
 					for _, ops := range []string{"E", "D"} {
 						for pm := 0; pm < 4; pm++ {
 							jobs = append(jobs, c18Scenario{TS: ti, Ops: ops, ParamMode: pm, Bound: 0, Fmt: fi, SPP: spp, W: wh[0], H: wh[1]})
@@ -580,6 +630,19 @@ func c18(c *eng.Ctx) {
 						jobs = append(jobs, c18Scenario{TS: ti, Ops: "ED", ParamMode: 2, Bound: b, Fmt: fi, SPP: spp, W: wh[0], H: wh[1]})
 					}
 				}
+			}
+		}
+	}
+	// valid streams from other sources through every codec of their family
+	for _, sd := range allSeeds() {
+		if sd.DevHi != 0 || len(sd.Data) > 4096 {
+			continue
+		}
+		for ti, ts := range allTS() {
+			jp := ts.Name == ".50" || ts.Name == ".51" || ts.Name == ".57" || ts.Name == ".70" || ts.Name == ".80" || ts.Name == ".81"
+			j2 := strings.HasPrefix(ts.Name, ".9") || strings.HasPrefix(ts.Name, ".2")
+			if (sd.Fam == famJPEG && jp) || (sd.Fam == famJ2K && j2) {
+				jobs = append(jobs, c18Scenario{TS: ti, Ops: "D", Seed: sd.Name})
 			}
 		}
 	}
@@ -677,7 +740,7 @@ func c18(c *eng.Ctx) {
 	if !done {
 		c.Capped(fmt.Sprintf("scenario list cut by deadline or worker death: %d of %d scenarios completed", completed.Load(), len(jobs)))
 	}
-	c.Subspace("schedule-exploration", c.Evals()-before, done, fmt.Sprintf("%d scenarios, each in a fresh process: 14 codecs x {EE,ED,DD} x 4 parameter modes (preemption bound 2 in quick, every schedule in thorough); EED (bound 1 / 2); every format x SPP {1,3} x sizes {3x2,9x10,17x9} x {E,D} x 4 parameter modes solo with state digests, ED interleavings per format; heterogeneous scenarios {EE,ED,DE,DD} x 2 format offsets x SPP x {nil, shared} parameters", len(jobs)))
+	c.Subspace("schedule-exploration", c.Evals()-before, done, fmt.Sprintf("%d scenarios, each in a fresh process: 14 codecs x {EE,ED,DD} x 4 parameter modes (preemption bound 2 in quick, every schedule in thorough); EED (bound 1 / 2); every format x SPP {1,3} x sizes {3x2,9x10,17x9,1x7,1x1} x {E,D} x 4 parameter modes solo with state digests; every valid E3 seed stream (reference encoders, preset parameters, spliced segments, ROI/MCT/tiles/layers) decoded twice through every codec of its family with state digests, ED interleavings per format; heterogeneous scenarios {EE,ED,DE,DD} x 2 format offsets x SPP x {nil, shared} parameters", len(jobs)))
 	// heterogeneous scenarios once more, each from a fresh process (4 at a time): nothing an earlier scenario left behind
 	// can make the solo runs and the interleaved runs agree by being polluted alike
 	before = c.Evals()
